@@ -19,7 +19,7 @@ static vf::json gen_case(vf::Choice& ch, int size) {
     static const char* pols[] = {"dbg", "rel_ind", "rel_map"};
     vf::json c;
     c["policy"] = pols[ch.draw(3)];
-    c["style"] = int(ch.draw(3));
+    c["style"] = int(ch.draw(4));
     vf::json defs = vf::json::object();
     for (auto& [name, n] : kPool) {
         std::vector<int> v;
